@@ -33,12 +33,12 @@ type Violation struct {
 }
 
 type Check struct {
-	ID     string
-	Tier   string
-	Seed   int64
-	Level  string
-	Verif  string
-	start  time.Time
+	ID    string
+	Tier  string
+	Seed  int64
+	Level string
+	Verif string
+	start time.Time
 
 	mu          sync.Mutex
 	evals       int
